@@ -77,7 +77,10 @@ class MoveMethod:
         pyname = evaluate.eval_location(this_pymodule, offset)
         self.method_name = worder.get_name_at(resource, offset)
         self.pyfunction = pyname.get_object()
-        if self.pyfunction.get_kind() != "method":
+        if (
+            self.pyfunction.get_kind() != "method"
+            or not self.pyfunction.get_param_names()
+        ):
             raise exceptions.RefactoringError("Only normal methods can be moved.")
 
     def get_changes(
